@@ -7,6 +7,7 @@ import DaskModel.Lemmas.ChunksPlanStages
 import DaskModel.Lemmas.ChunksLocate
 import DaskModel.Lemmas.ChunksAutoLemmas
 import DaskModel.Lemmas.ChunksMergeSafe
+import DaskModel.Lemmas.ChunksBalance
 /-!
 # C23 — chunk normalisation and rechunking are exact (theorems)
 
@@ -203,6 +204,16 @@ example : mergeToNumberFull [3, 3, 3, 3] 0 = .error .raised := by rfl
     IndexError before the fix) -/
 example : mergeToNumberFull [3, 0, 0, 2, 0, 1] 3 = .ok [3, 2, 1] := by rfl
 example : mergeToNumberFull [0, 0, 0] 2 = .ok [0, 0] := by rfl
+
+/-- **balance_chunksizes_valid**: `_balance_chunksizes` (`rechunk(..., balance=True)`; median chunk length, candidate
+    lengths `median ± median // 2`, the candidate with the requested number of chunks and the smallest spread, else the
+    input) maps a valid chunking of an axis to a valid chunking of the same axis. -/
+theorem balance_chunksizes_valid {n : Nat} {cs : List Nat} (h : StageOK n cs) : StageOK n (balanceChunks cs) :=
+  balanceChunks_stage h
+
+example : balanceChunks [400, 400, 200] = [500, 500] := by decide
+example : balanceChunks [2, 2, 2, 1] = [3, 3, 1] := by decide
+example : balanceChunks [0, 0, 5] = [0, 0, 5] := by decide
 
 /-! ## Part 2b: the stage choice of `plan_rechunk` (`find_split_rechunk`, `find_merge_rechunk`, the loop)
 
